@@ -460,7 +460,7 @@ def run_rt(abort, root, hexs):
     if out != "ACC":
         return "NA " + out.split(" ")[0]
     warns = [e for e in evs if e[0] == "W"]
-    if any(not w[1].startswith("V ") for w in warns):
+    if not abort and any(not w[1].startswith("V ") for w in warns):
         return "NA sizewarn"
     chunks = list(Binary.unmarshal([e[2] for e in evs]))
     if b"".join(chunks) != data:
@@ -564,6 +564,14 @@ def run_attr(name, v):
     attrs = x.attributes()
     if len(rows) != len(attrs):
         return "ROWS %d ATTRS %d" % (len(rows), len(attrs))
+    # ... and the printer shows exactly these rows under the word's own row
+    from tpmstream.io.pretty import Pretty
+
+    printed = [parse_pretty(l) for l in Pretty.unmarshal(iter([ev]))]
+    printed = [r for r in printed if r is not None]
+    below = printed[1:] if printed else None
+    if below is None or [r["name"] for r in below] != [r["name"] for r in rows if r is not None] or [r["value"] for r in below] != [r["value"] for r in rows if r is not None]:
+        return "PRINTED %d rows below the word, %d fields" % (len(below) if below is not None else -1, len(rows))
     out = []
     for a, r in zip(attrs, rows):
         acc = getattr(x, a._name)
@@ -845,9 +853,15 @@ def run_stream9w(spec):
             return "NA part-%d-raises-%s" % (i, type(e).__name__)
         # a message whose size field covers padding behind its fields (Subceeded) is self-contained; one that is too
         # short or too long for its size field is not comparable with its decode inside a stream
-        if any(isinstance(e, WarningEvent) and type(e.error).__name__ in ("SizeConstraintExceededError", "AnticipatedSizeConstraintExceededError",
-                                                                          "InputStreamBytesDepletedError", "InputStreamSuperfluousBytesError") for e in evs):
+        names_ = [type(e.error).__name__ for e in evs if isinstance(e, WarningEvent)]
+        if any(n_ in ("AnticipatedSizeConstraintExceededError", "InputStreamBytesDepletedError", "InputStreamSuperfluousBytesError") for n_ in names_):
             return "NA part-%d-size-problem" % i
+        if "SizeConstraintExceededError" in names_:
+            # a message abandoned at an overrun is comparable only if the abandoned decode consumed all of its bytes
+            # (the overrunning field was the last one): nothing of it is left in the stream
+            rest_ = b"".join(Binary.unmarshal([e for e in evs if isinstance(e, MarshalEvent)]))
+            if len(rest_) != len(p):
+                return "NA part-%d-abandoned-with-bytes-left" % i
         indiv += sig(evs)
     if sexc is not None:
         return "BAD stream-raises %s although every message decodes on its own in warn mode" % sexc
@@ -887,6 +901,24 @@ def run_objs(root, hexs):
         pass
     if obj != rebuilt:
         return "BAD by-product!=rebuilt"
+    # the Canonical wrapper around the same conversions: from the bytes and from the object
+    try:
+        from tpmstream.common.canonical import Canonical
+
+        if "parameter_encryption" not in kw:
+            cb = Canonical(data, format_in=Binary, tpm_type=t, command_code=kw.get("command_code"), abort_on_error=True)
+            if list(cb.events) != evs:
+                return "BAD canonical-from-bytes events"
+            if cb.object != obj:
+                return "BAD canonical-from-bytes object"
+            if obj is not None:
+                co = Canonical(obj)
+                if list(co.events) != evs:
+                    return "BAD canonical-from-object events"
+                if co.object != obj:
+                    return "BAD canonical-from-object object"
+    except Exception as e:  # noqa
+        return "BAD canonical-raises %s" % type(e).__name__
     for nm, o in (("by-product", obj), ("rebuilt", rebuilt)):
         try:
             back = list(obj_to_events(o))
@@ -907,19 +939,20 @@ def run_objs(root, hexs):
 
 
 def make_pcapng(payloads, encap="ip"):
-    """a pcapng capture with one TCP packet per payload (dpkt writer)"""
+    """a pcapng capture with one TCP packet per payload (dpkt writer); encap 'ipconst': raw IP, every packet with the
+    same ports and sequence number"""
     import io
 
     import dpkt
 
     f = io.BytesIO()
-    w = dpkt.pcapng.Writer(f, linktype=(101 if encap == "ip" else 1))
+    w = dpkt.pcapng.Writer(f, linktype=(101 if encap in ("ip", "ipconst") else 1))
     for i, p in enumerate(payloads):
-        tcp = dpkt.tcp.TCP(sport=2321, dport=40000 + i % 100, data=bytes(p))
+        tcp = dpkt.tcp.TCP(sport=2321, dport=(40000 if encap == "ipconst" else 40000 + i % 100), data=bytes(p))
         ip = dpkt.ip.IP(src=b"\x7f\x00\x00\x01", dst=b"\x7f\x00\x00\x01", p=dpkt.ip.IP_PROTO_TCP, data=tcp)
         ip.len = 20 + len(bytes(tcp))
         pkt = bytes(ip)
-        if encap != "ip":
+        if encap not in ("ip", "ipconst"):
             pkt = bytes(dpkt.ethernet.Ethernet(dst=b"\0" * 6, src=b"\0" * 6, type=dpkt.ethernet.ETH_TYPE_IP, data=ip))
         w.writepkt(pkt, ts=float(i))
     return f.getvalue()
@@ -988,7 +1021,7 @@ def run_fe(kind, texthex):
 
         payloads = [] if texthex == "-" else [bytes.fromhex(x) if x != "-" else b"" for x in texthex.split(",")]
         res = None
-        for encap in ("ip", "eth", "mix:eii", "mix:ie", "mix:eeiie"):
+        for encap in ("ip", "eth", "ipconst", "mix:eii", "mix:ie", "mix:eeiie"):
             data = make_pcapng(payloads, encap) if not encap.startswith("mix:") else make_pcapng_mixed(payloads, encap[4:])
             r = hx(bytes(bytes_from_pcap_file(io.BytesIO(data))))
             if res is None:
@@ -1015,6 +1048,10 @@ def run_fevents(kind, abort, root, texthex):
         payloads = [] if texthex == "-" else [bytes.fromhex(x) if x != "-" else b"" for x in texthex.split(",")]
         text = make_pcapng(payloads, "eth")
         F = Auto
+    elif kind == "pcapconst":
+        payloads = [] if texthex == "-" else [bytes.fromhex(x) if x != "-" else b"" for x in texthex.split(",")]
+        text = make_pcapng(payloads, "ipconst")
+        F = Pcapng
     elif kind in ("pcapmix", "autopcapmix"):
         payloads = [] if texthex == "-" else [bytes.fromhex(x) if x != "-" else b"" for x in texthex.split(",")]
         text = make_pcapng_mixed(payloads, "eii" if kind == "pcapmix" else "ieei")
@@ -1097,6 +1134,11 @@ def run_remsrc(root, hexs):
         if err is None:
             return "NA no-error"
         try:
+            # looking at the attribute (as a debugger, a logger or hasattr would) is not reading it; the first kind of
+            # source is read straight away and is the reference
+            if ref is not None:
+                hasattr(err, "bytes_remaining")
+                _seen = err.bytes_remaining
             rem = bytes(err.bytes_remaining)
         except Exception as e:  # noqa
             rem = ("EXC " + type(e).__name__).encode()
